@@ -45,3 +45,38 @@ Fixpoint no_template (e : expr Q) : bool :=
   end.
 End EV.
 Arguments expr_values {Q}. Arguments no_template {Q}.
+
+(* The same traversal for EVERY tree, custom templates included.  A template binds the values of the
+   arguments its placeholders designate, each time a placeholder designates them (the template
+   language itself - what is a placeholder, which argument it designates - is C11's subject:
+   Spec/Template.v); `tv s vss` is that selection for the template text s and the arguments'
+   value lists vss. *)
+Section EVT.
+Variable Q : Type.
+Variable tv : str -> list (list value) -> list value.
+Variable qvals : Q -> list value.
+
+Fixpoint expr_values_t (e : expr Q) : list value :=
+  match e with
+  | EColumn _ | ECustom _ | EKeyword _ | EConstant _ => []
+  | ETuple es => flat_map expr_values_t es
+  | ENot x => expr_values_t x
+  | EFunc _ args => flat_map (fun a : bool * expr Q => expr_values_t (snd a)) args
+  | EBinary l op r =>
+      if is_empty_in Q op r then
+        match op with
+        | BIn => [int_value 1; int_value 2]
+        | _ => [int_value 1; int_value 1]
+        end
+      else expr_values_t l ++ expr_values_t r
+  | ESubQuery _ q => qvals q
+  | EValue v => [v]
+  | EValues vs => vs
+  | ECustomWith s es => tv s (map expr_values_t es)
+  | EAsEnum _ x => expr_values_t x
+  | ECase whens els =>
+      flat_map (fun w : expr Q * expr Q => expr_values_t (fst w) ++ expr_values_t (snd w)) whens ++
+      match els with Some x => expr_values_t x | None => [] end
+  end.
+End EVT.
+Arguments expr_values_t {Q}.
